@@ -449,7 +449,10 @@ Definition page_keyset_f {A} (le : bytes -> bytes -> bool) (rows : list (bytes *
             (match nth_error got (N.to_nat size) with Some r => fst r | None => [] end).
 
 (* sqlite ReadChanges as coded: WHERE ulid > token ORDER BY ulid LIMIT size; rows loop; NO
-   rows.Err() check: whatever was scanned is returned, nothing scanned = ErrNotFound *)
+   rows.Err() check after the loop: whatever was scanned is returned with the ulid of the last
+   scanned row as token; nothing scanned = ErrNotFound.  The first step of a statement is taken
+   inside QueryContext (modernc.org/sqlite), whose error IS checked: a fault on the first row of the
+   statement is a query error. *)
 Definition changes_stmt {A} (rows : list (bytes * A)) (size : N) (from : bytes) : list (bytes * A) :=
   let table := isort ble rows in
   firstn (N.to_nat size)
@@ -457,9 +460,9 @@ Definition changes_stmt {A} (rows : list (bytes * A)) (size : N) (from : bytes) 
 
 Definition changes_page_f {A} (rows : list (bytes * A)) (size : N) (from : bytes)
            (bad : option bytes) : changes_result A :=
-  let '(got, _) := scan bad (changes_stmt rows size from) in
+  let '(got, failed) := scan bad (changes_stmt rows size from) in
   match got with
-  | [] => CNotFound
+  | [] => if failed then CRejected EInternal else CNotFound
   | _ => CPage (map snd got) (last_key got)
   end.
 
@@ -481,12 +484,6 @@ Definition storage_from (tok : bytes) : option bytes :=
   match tok with
   | [] => Some []
   | _ => match deserialize tok with Some (u, _) => Some u | None => None end
-  end.
-
-Definition changes_sql_fault_hit {A} (rows : list (bytes * A)) (bad : bytes) (ps : Z) (tok : bytes) : bool :=
-  match storage_from tok with
-  | Some from => fault_in_stmt bad (changes_stmt rows (page_size_opt ps) from)
-  | None => false
   end.
 
 (* is the faulty row anywhere in the WHERE range of a keyset request (an engine that materialises
